@@ -29,7 +29,7 @@ THEOREMS = ["C06_try_from_data_exact", "C06_from_data_with_strides_exact", "C06_
             "C06_try_from_data_establishes_inv", "C06_from_data_establishes_inv", "C06_contiguous_unique",
             "C06_from_data_with_strides_establishes_inv", "C06_from_slice_with_strides_establishes_inv",
             "C06_from_storage_and_layout_establishes_inv", "C06_expanded_layout_establishes_inv",
-            "C06_index_checked", "C06_index_some_in_bounds", "C06_norm_len", "C06_weak_index_in_bounds",
+            "C06_index_checked", "C06_index_some_in_bounds", "C06_array_offsets_in_bounds", "C06_norm_len", "C06_weak_index_in_bounds",
             "C06_inv_permute", "C06_inv_shrink", "C06_inv_mono", "C06_oracle_inv", "C06_oracle_injective",
             "C06_try_from_data_old_refuted", "C06_try_from_data_old_debug_panics",
             "C06_from_data_with_strides_old_refuted", "C06_from_slice_with_strides_old_refuted",
@@ -54,7 +54,7 @@ def main(ctx):
     ctx.audit(GROUP)
     failed = ctx.prove(GROUP, "Props_C06", THEOREMS) if THEOREMS else []
     agree = "agree_old" if os.environ.get("VERIF_C06_OLD") == "1" else "agree"
-    n = ctx.n(600, 12000)
+    n = ctx.n(600, 6000)
     for profile in ("release", "debug"):
         bindir = ctx.harness(GROUP, profile=profile, bins=["c06"])
         rc, mode = ctx.run_bin(os.path.join(bindir, "c06"), ["mode"])
